@@ -44,16 +44,17 @@ struct Cfg {
     std::string qsize; // "" = default, else value for all three OSMIUM_MAX_*_QUEUE_SIZE
     int mask;          // osm_entity_bits (node 1, way 2, relation 4, changeset 8)
     bool single, meta, pbf_pool, call_header;
+    bool big = false;    // the data set with objects larger than the parser buffers (first in their blocks)
     bool slow = false;   // slow consumer: before every read() it waits until no other thread can run (queues full, back-pressure everywhere)
     std::string name() const {
         std::ostringstream s;
-        s << fmt << ",pool=" << pool << ",q=" << (qsize.empty() ? "def" : qsize) << ",mask=" << mask << (single ? ",single" : ",any") << (meta ? ",meta" : ",nometa") << (pbf_pool ? "" : ",pbfpool=off") << (call_header ? ",header" : "") << (slow ? ",slow" : "");
+        s << fmt << ",pool=" << pool << ",q=" << (qsize.empty() ? "def" : qsize) << ",mask=" << mask << (single ? ",single" : ",any") << (meta ? ",meta" : ",nometa") << (pbf_pool ? "" : ",pbfpool=off") << (call_header ? ",header" : "") << (slow ? ",slow" : "") << (big ? ",big" : "");
         return s.str();
     }
 };
 
 std::string g_dir;
-std::vector<Obj> g_data;
+std::vector<Obj> g_data, g_data_big;
 
 void body(const Cfg& c) {
     auto& env = osmium::detail::g_env;
@@ -66,7 +67,7 @@ void body(const Cfg& c) {
     size_t nbuffers = 0, mixed_buffers = 0;
     {
         osmium::thread::Pool pool{c.pool, 0};
-        osmium::io::File file{g_dir + "/in." + c.fmt};
+        osmium::io::File file{g_dir + (c.big ? "/inbig." : "/in.") + c.fmt};
         try {
             osmium::io::Reader reader{file, pool, static_cast<osmium::osm_entity_bits::type>(c.mask),
                                       c.meta ? osmium::io::read_meta::yes : osmium::io::read_meta::no,
@@ -91,7 +92,7 @@ void body(const Cfg& c) {
         }
     }
     std::vector<std::string> want;
-    for (auto& o : g_data) {
+    for (auto& o : (c.big ? g_data_big : g_data)) {
         int bit = o.type == 'n' ? 1 : o.type == 'w' ? 2 : 4;
         if (c.mask & bit) want.push_back(canon(o, c.meta));
     }
@@ -122,6 +123,11 @@ int main(int argc, char** argv) {
     write_file(g_dir + "/in.osm", to_xml(g_data));
     write_pbf(g_dir + "/in.pbf", g_data, true);
     write_file(g_dir + "/in.o5m", to_o5m(g_data));
+    g_data_big = dataset_big();
+    write_file(g_dir + "/inbig.opl", to_opl(g_data_big));
+    write_file(g_dir + "/inbig.osm", to_xml(g_data_big));
+    write_pbf(g_dir + "/inbig.pbf", g_data_big, true);
+    write_file(g_dir + "/inbig.o5m", to_o5m(g_data_big));
 
     struct Job { Cfg c; vsched::Options o; };
     std::vector<Job> jobs;
@@ -138,7 +144,9 @@ int main(int argc, char** argv) {
             {fmt, pool, "", 5, false, false, true, false},
         };
         if (std::string(fmt) == "pbf") cover.push_back({fmt, pool, "2", 7, false, true, false, true});
-        { Cfg sc{fmt, pool, "2", 7, false, true, true, false}; sc.slow = true; cover.push_back(sc); }      // pipeline ahead of the consumer: every queue full before each read()
+        { Cfg sc{fmt, pool, "2", 7, false, true, true, false}; sc.slow = true; cover.push_back(sc); }
+        { Cfg bc{fmt, pool, "2", 7, false, true, true, false}; bc.big = true; cover.push_back(bc); }       // objects larger than the parser buffers
+        { Cfg bc{fmt, pool, "3", 6, true, true, true, true}; bc.big = true; cover.push_back(bc); }         // ... with buffers_type::single and the node-less mask (a big way is the first selected object)      // pipeline ahead of the consumer: every queue full before each read()
         // quick: bound 2 where an execution has few decision points (PBF ~120, o5m ~165; OPL ~230 on one configuration); the XML
         // reader has ~450 decision points per execution (~10^5 schedules per configuration at bound 2): bound <= 1 in quick
         for (auto& c : cover) {
@@ -181,7 +189,7 @@ int main(int argc, char** argv) {
         if (T) for (size_t i = n_deep; i < jobs.size(); ++i) if (jobs[i].o.max_bound >= 1) run_job(jobs[i], 1);
     }
     int rc = m.finish();
-    for (auto f : {"/in.opl", "/in.osm", "/in.pbf", "/in.o5m"}) unlink((g_dir + f).c_str());
+    for (auto f : {"/in.opl", "/in.osm", "/in.pbf", "/in.o5m", "/inbig.opl", "/inbig.osm", "/inbig.pbf", "/inbig.o5m"}) unlink((g_dir + f).c_str());
     rmdir(g_dir.c_str());
     return rc;
 }
